@@ -36,3 +36,16 @@ func TwinSetEvmTracer(app *chainapp.Evermint, tracer string) error {
 	*(*string)(unsafe.Pointer(f.UnsafeAddr())) = tracer
 	return nil
 }
+
+// TwinGetEvmTracer reads the node's evm.tracer back from the keeper (to check that a restart configured it).
+func TwinGetEvmTracer(app *chainapp.Evermint) (string, error) {
+	v := reflect.ValueOf(app.EvmKeeper)
+	if v.Kind() != reflect.Ptr || v.IsNil() {
+		return "", fmt.Errorf("EvmKeeper is not a pointer")
+	}
+	f := v.Elem().FieldByName("tracer")
+	if !f.IsValid() || f.Kind() != reflect.String {
+		return "", fmt.Errorf("evm keeper has no string field `tracer`")
+	}
+	return f.String(), nil
+}
